@@ -19,6 +19,14 @@ CLAIMED = {
         text="Proof of post-conditions written from the cEMI bit layout (not from the code): flag constructors/accessors over their whole 8-bit domains (Control1Prio, Control2Hops, Hops incl. Hops(Control2Hops(h)) == min(h,7), IsGroupAddr, IsGroupCommand); byte-exact layout of Info.Pack, AppData.Pack, ControlData.Pack and of LData.Pack (control fields, big-endian addresses, length octet, TPCI/APCI split, payload placement); and exact field extraction from any accepted byte string by Info.Unpack, unpackTransportUnit and LData.Unpack (the latter verified against callee bodies, 'exact' mode).",
         note="Assumes as C01/C15. LData.Pack's post-condition restates the additional-info length octet but not the info bytes (those are Info.Pack's contract; the quantified restatement did not discharge). LData.Pack obligations need up to ~60 s each on z3 5.1 (timeout 150 s in the contract). The message-code octet is written by cemi.Pack (inline dispatcher) and covered by C15/C02 only.",
         ref="§3 C11"),
+    "C06": dict(
+        text="Proof, by one generated lemma per registered type (152 types; statement taken from the property: Unpack(b) ok ==> Unpack(Pack(v)) ok with the same value, plus byte identity of the re-encoding for the exact integer, bit-field, enumeration, character and IEEE formats), verified against the real Pack/Unpack bodies ('exact' mode) for every payload of every length. For the 20 two-octet float types 9.xxx the round trip is decided by exhaustive execution of the real code over all 65,536 payloads of each type (complete, labelled bounded stand-in; per-exponent deductive slices of the codec run in the thorough tier). For 16.000/16.001 only a BOUNDED stand-in exists.",
+        note="Assumes as C08. BOUNDED: 16.000/16.001 (two adjacent octets over all values at every position, three fill patterns) - not a proof; 9.xxx exhaustive over the complete 2^16 domain per type but by execution, not by a discharged obligation. Thorough tier adds lemmaF16rt_e0..e15 (deductive round trip of packF16/unpackF16 per exponent, bit-precise FloatingPoint theory, up to 25 min each).",
+        ref="§3 C06"),
+    "C07": dict(
+        text="Proof, by one generated lemma per numeric/string datapoint type, that every encoding has the prescribed fixed length and leading zero octet (or 6-bit single octet) and is accepted by the type's own decoder; exactness for the integer formats; saturation (no wrap, no sign change) and one-step accuracy for 5.001, 5.003, 8.003, 8.004, 8.010 in bit-precise float arithmetic; 17.001/18.001 field clamps; monotonicity lemmas for the five scaled types (thorough tier). packF16 (format, zero, loop bounds), roundF16, unpackF16 and the 16.xxx encoders are under their own contracts. For the 9.xxx types accuracy, monotonicity, saturation and self-decodability of the shared codec are decided by exhaustive execution of the real packF16/unpackF16 over every non-NaN float32 (labelled bounded stand-in; per type over every float32 in the thorough tier).",
+        note="Assumes as C08. The 9.xxx numeric claims rest on execution over the complete float32 domain (4.26e9 values, ~30 s on 16 cores), not on discharged obligations; the quick tier checks the per-type bounds only at the range end points and relies on the codec's (exhaustively checked) monotonicity for the values in between. 10.001/11.001 invalid-field gates and 28.001 are covered for format/self-decodability only.",
+        ref="§3 C07"),
     "C08": dict(
         text="Proof for Unpack, String and Unit of every datapoint type in package dpt (174 types, 522 functions, each under its own contract): no panic for any byte slice of any length and capacity; a payload whose length differs from the fixed length of the type's main number is rejected (28.001: fewer than 2 bytes); and on success the decoded value lies in the documented range (9.xxx bounds in bit-precise float32 arithmetic, 5.001 in [0,100], 5.003 in [0,360], time of day, calendar date 1990..2089 with the right month lengths, scene numbers). String/Unit: no panic for in-range values.",
         note="Assumes: go/ssa semantics, 64-bit int, SMT FloatingPoint theory = IEEE-754 binary32/64 with round-to-nearest-even as on amd64 (no FMA fusion), fmt.Sprintf/Errorf/errors.New return some string/non-nil error, time.Date normalises exactly the invalid civil dates (conformance test in the thorough tier), []rune/string conversions as abstract UTF-8 codecs. The 9.xxx range bounds in the contract file were read once from the documented ranges and frozen.",
